@@ -90,6 +90,57 @@ V("f-w-preprocess-slots", "fire", W_PROPS, SW, "tseitin_transformation.belief_ba
 V("f-w-tie-layer0", "fire", W_PROPS, SW, "            if partition_index == 0:\n                return False\n            hard_constraints_new", "            if partition_index == 0:\n                return True\n            hard_constraints_new")
 V("f-w-no-subset-exit", "fire", W_PROPS, SW, "        if not any_subset_of_all(xi_i_set, xi_i_prime_set):\n            return False\n", "        if not any_subset_of_all(xi_i_prime_set, xi_i_set):\n            return False\n")
 
+# ---------------------------------------------------------------------------------- lexicographic inference (rc2)
+LX = "inference/lex_inf.py"
+L_PROPS = ["C04", "C11"]
+V("s-lex-min-form", "silent", L_PROPS, LX, "        min_len_v = min(len(xi) for xi in mcs_v)\n", "        min_len_v = min([len(xi) for xi in mcs_v])\n", note="generator -> list")
+V("s-lex-compare-flip", "silent", L_PROPS, LX, "        if min_len_v < min_len_f:\n            return True\n        if min_len_f < min_len_v:\n            return False\n",
+  "        if min_len_f > min_len_v:\n            return True\n        if min_len_v > min_len_f:\n            return False\n", note="comparisons written the other way round")
+V("s-lex-not-result", "silent", L_PROPS, LX, "                if result == False:\n                    beats_all = False\n", "                if not result:\n                    beats_all = False\n")
+V("s-lex-order-of-exits", "silent", L_PROPS, LX, "        if min_len_v < min_len_f:\n            return True\n        if min_len_f < min_len_v:\n            return False\n",
+  "        if min_len_f < min_len_v:\n            return False\n        if min_len_v < min_len_f:\n            return True\n", note="two exclusive exits swapped")
+V("s-lex-soft-loop", "silent", L_PROPS, LX, "            [hard_constraints_v.append(s, weight=1) for s in softc]\n            [hard_constraints_f.append(s, weight=1) for s in softc]\n",
+  "            for s in softc:\n                hard_constraints_v.append(s, weight=1)\n                hard_constraints_f.append(s, weight=1)\n")
+V("f-lex-strictness", "fire", L_PROPS, LX, "        if min_len_v < min_len_f:\n            return True\n", "        if min_len_v <= min_len_f:\n            return True\n")
+V("f-lex-empty-v", "fire", L_PROPS, LX, "        if not mcs_v:\n            logger.debug(\"minimal_correction_subsets not found for verification\")\n            return False\n",
+  "        if not mcs_v:\n            logger.debug(\"minimal_correction_subsets not found for verification\")\n            return True\n")
+V("f-lex-tie-layer0", "fire", L_PROPS, LX, "        if partition_index == 0:\n            return False\n        # the lexicographic order", "        if partition_index == 0:\n            return True\n        # the lexicographic order")
+V("f-lex-exists-forall-swapped", "fire", L_PROPS, LX, "            if beats_all:\n                return True\n\n        return False\n", "            if not beats_all:\n                return False\n\n        return True\n")
+V("f-lex-tie-constraint-sides", "fire", L_PROPS, LX, "                    if i in xi_f:\n                        [\n                            hard_constraints_new_f.append(c)\n                            for c in self.epistemic_state[\"f_cnf_dict\"][i]",
+  "                    if i in xi_v:\n                        [\n                            hard_constraints_new_f.append(c)\n                            for c in self.epistemic_state[\"f_cnf_dict\"][i]")
+V("f-lex-max-instead-of-min", "fire", L_PROPS, LX, "        min_len_f = min(len(xi) for xi in mcs_f)\n", "        min_len_f = max(len(xi) for xi in mcs_f)\n")
+V("f-lex-soft-only-v", "fire", L_PROPS, LX, "            [hard_constraints_f.append(s, weight=1) for s in softc]\n", "            [hard_constraints_f.append(s) for s in softc]\n")
+V("f-lex-no-descent", "fire", L_PROPS, LX, "                    partition_index - 1,\n                    deadline,\n", "                    partition_index,\n                    deadline,\n")
+V("f-lex-filter-min", "fire", L_PROPS, LX, "        min_mcs_f = [xi for xi in mcs_f if len(xi) == min_len_f]\n", "        min_mcs_f = [xi for xi in mcs_f if len(xi) >= min_len_f]\n")
+
+# ---------------------------------------------------------------------------------- c-inference
+CI = "inference/c_inference.py"
+C_PROPS = ["C05"]
+V("s-ci-answer-inline", "silent", C_PROPS, CI, "        satcheck = solver.solve()\n        # print(f'satcheck {satcheck}')\n        return not satcheck\n", "        return not solver.solve()\n")
+V("s-ci-selffulfilling-any", "silent", C_PROPS, CI,
+  "        selffullfilling = True\n        for conditional in self.epistemic_state[\"belief_base\"].conditionals.values():\n            if is_sat(And(conditional.antecedence, Not(conditional.consequence))):\n                selffullfilling = False\n        if selffullfilling:\n            return False\n",
+  "        if not any(is_sat(And(c.antecedence, Not(c.consequence))) for c in self.epistemic_state[\"belief_base\"].conditionals.values()):\n            return False\n",
+  note="flag loop -> any()")
+V("s-ci-gt-as-lt", "silent", C_PROPS + ["C17"], CI, "            csp.append(GT(eta, mv - mf))\n", "            csp.append(LT(mv - mf, eta))\n", note="a > b written b < a")
+V("s-ci-attained-as-or", "silent", C_PROPS + ["C17", "C19"], CI, "    ors = Not(And([LT(mv, i) for i in ssums]))\n", "    ors = Or([GE(mv, i) for i in ssums])\n", note="¬∧(m<s) written ∨(m≥s)",
+  more=[(CI, "    Not,\n    Plus,\n", "    Not,\n    Or,\n    Plus,\n", 0)])
+V("s-ci-empty-guard-len", "silent", C_PROPS + ["C17"], CI, "            if not fSums[index]:\n                # no world falsifies this conditional: every", "            if len(fSums[index]) == 0:\n                # no world falsifies this conditional: every")
+V("s-ci-query-ge-flip", "silent", C_PROPS, CI, "        csp = vM + fM + [GE(mv, mf)]\n", "        csp = vM + fM + [LE(mf, mv)]\n")
+V("f-ci-answer-polarity", "fire", C_PROPS, CI, "        return not satcheck\n", "        return satcheck\n")
+V("f-ci-acceptance-nonstrict", "fire", C_PROPS + ["C17"], CI, "            csp.append(GT(eta, mv - mf))\n", "            csp.append(GE(eta, mv - mf))\n")
+V("f-ci-acceptance-sign", "fire", C_PROPS + ["C17"], CI, "            csp.append(GT(eta, mv - mf))\n", "            csp.append(GT(eta, mf - mv))\n")
+V("f-ci-min-roles", "fire", C_PROPS + ["C17"], CI, "            fMin = minima_encoding(mf, fSums[index])\n", "            fMin = minima_encoding(mf, vSums[index])\n")
+V("f-ci-minimum-lower-bound", "fire", C_PROPS + ["C17", "C19"], CI, "    ands = [LE(mv, i) for i in ssums]\n", "    ands = [LT(mv, i) for i in ssums]\n")
+V("f-ci-minimum-not-attained", "fire", C_PROPS + ["C17", "C19"], CI, "    ands.append(ors)\n", "    pass\n")
+V("f-ci-query-strict", "fire", C_PROPS, CI, "        csp = vM + fM + [GE(mv, mf)]\n", "        csp = vM + fM + [GT(mv, mf)]\n")
+V("f-ci-query-edge-v-empty", "fire", C_PROPS, CI, "            # No verification MCS but falsification has MCS -> not entailed\n            return [], ", "            # No verification MCS but falsification has MCS -> not entailed\n            return [LE(Int(1), Int(0))], ")
+V("f-ci-soft-includes-self", "fire", C_PROPS, CI, "                    if i != j\n", "                    if True\n")
+V("f-ci-vmin-fmin-swapped", "fire", C_PROPS, CI, "                if leading_conditional is self.epistemic_state[\"v_cnf_dict\"]:\n                    self.epistemic_state[\"vMin\"][i] = xMins_lst",
+  "                if leading_conditional is self.epistemic_state[\"f_cnf_dict\"]:\n                    self.epistemic_state[\"vMin\"][i] = xMins_lst")
+V("f-ci-nonneg-dropped", "fire", C_PROPS + ["C17"], CI, "        csp.extend(gteZeros)\n", "        pass\n")
+V("f-ci-selffulfilling-polarity", "fire", C_PROPS, CI, "        if selffullfilling:\n            return False\n", "        if selffullfilling:\n            return True\n")
+V("f-ci-summation-empty-set", "fire", C_PROPS + ["C17"], CI, "                interim.append(Int(0))  # Or use 0 directly\n", "                interim.append(Int(1))  # Or use 0 directly\n")
+
 
 def main():
     hv = os.path.join(HERE, "harvested.json")
